@@ -403,7 +403,11 @@ SPEC = Spec(
         "is seeded with the operand binding names and shared by all calls of a "
         "loop. R16-BROADCAST: every broadcasting decision tree on axis lengths, "
         "evaluated on its consistent abstract cases (equal / new is 1 / remembered "
-        "is 1 / neither), does what NumPy broadcasting does (shared with R03-FOLD)."),
+        "is 1 / neither), does what NumPy broadcasting does (shared with R03-FOLD). "
+        "R16-ROUTE treats only a comparison with () (a rank test) as exact; a "
+        "component compared with another literal must be integer-proven or "
+        "reviewed. R16-STATE: pytato.utils keeps no state that outlives a call (no "
+        "memo of verdicts keyed by id())."),
     not_decided=(
         "That one compiled kernel is right for every size (behaviour of generated "
         "code) and that inferred shapes equal concrete shapes under every "
